@@ -627,8 +627,9 @@ Proof.
   pose proof (keeps_dep_add (t_id tk) c x _ _ s b1 (B_b2base HB tk c a x Htk Ha) eq_refl W R1) as HV2.
   destruct (tg =? 1); [|destruct (tg =? 2)].
   3:{ injection H as <-. split; assumption. }
-  2:{ assert (Hk : keeps (doB (base_to_ibc tk a x) ;; doB (ibc_send tk a x) ;; exe_add (t_id tk) 9 x)).
-      { apply keeps_bind; [apply keeps_doB0, (B_b2i HB); assumption|]. apply keeps_out. apply (B_isend HB); assumption. }
+  2:{ assert (Hk : keeps (guard (0 <? x) ;; doB (base_to_ibc tk a x) ;; doB (ibc_send tk a x) ;; exe_add (t_id tk) 9 x)).
+      { apply keeps_bind; [apply keeps_guard|].
+        apply keeps_bind; [apply keeps_doB0, (B_b2i HB); assumption|]. apply keeps_out. apply (B_isend HB); assumption. }
       pose proof (fun Wx => Hk _ s' Wx H) as K. cbn [sr] in K. destruct (K W) as [E1 W1]. split; [lia|assumption]. }
   - apply doB_inv in H as [b2 [R2 ->]]. cbn [sb sr sg] in *.
     unfold base_to_evm in R2.
